@@ -12,6 +12,7 @@ import (
 	"fmt"
 	"os"
 	"testing"
+	"time"
 )
 
 type ndEvent struct {
@@ -123,6 +124,12 @@ func Assert(b bool, msg string) {
 		panic(assertFailed{msg})
 	}
 }
+
+// AtomicOps: number of sync/atomic operations executed so far (gosym only; natively 0).
+func AtomicOps() int { return 0 }
+
+// TimeFromUnixNano returns a time t with t.UnixNano() == ns.
+func TimeFromUnixNano(ns int64) time.Time { return time.Unix(0, ns) }
 
 // EqualBytes is bytes.Equal (one conjunction term under gosym instead of a forking loop).
 func EqualBytes(a, b []byte) bool { return string(a) == string(b) }
